@@ -153,6 +153,10 @@ Proof.
   - exact (injective_reply_fields f r t1 t2 bs E W1 W2 H1 H2).
 Qed.
 
+(* ---- _check_banner keeps the peer's identification line as it came ---------------------------- *)
+Lemma version_exact line : stored_version line = line.
+Proof. reflexivity. Qed.
+
 (* ---- _set_K_H and the session-id latch ------------------------------------------------------- *)
 Lemma setkh_K st k h : s_K (set_K_H st k h) = Some (PInt k).
 Proof. destruct st as [a b [c|] d]; reflexivity. Qed.
@@ -187,37 +191,50 @@ Section Sym.
   Variable sign : Z -> list Z -> list Z.
   Variable verify : list Z -> list Z -> list Z -> bool.
   Variable sig_alg_ok : list Z -> bool.
+  Variable sig_canonical : list Z -> bool.
   Variable pubblob : Z -> list Z.
   Variable ec_pub : family -> Z -> list Z.
   Variable ec_dh : family -> Z -> list Z -> Z.
 
   Lemma verify_key_ok_inv st hk sg d st' :
-    s_H st = Some (PBytes d) -> verify_key verify sig_alg_ok st hk sg = Ok st' ->
+    s_H st = Some (PBytes d) -> verify_key verify sig_alg_ok sig_canonical st hk sg = Ok st' ->
     verify hk d sg = true /\ s_hostkey st' = Some hk /\ s_K st' = s_K st /\ s_H st' = s_H st /\ s_sid st' = s_sid st.
   Proof.
     intros HH. unfold verify_key, vsrc_val, verify_over, verify_key_from_arg, verify_sig_from_arg,
       verify_raises, verify_stores_key. rewrite HH.
-    destruct (verify_alg_guard && negb (sig_alg_ok sg)); [discriminate|].
+    destruct ((verify_alg_guard && negb (sig_alg_ok sg)) || (verify_canonical_guard && negb (sig_canonical sg))); [discriminate|].
     destruct (verify hk d sg); [|discriminate]. intros E. injection E as <-. cbn. auto.
   Qed.
 
+  Lemma verify_key_ok_guards st hk sg st' :
+    verify_key verify sig_alg_ok sig_canonical st hk sg = Ok st' ->
+    (verify_alg_guard = true -> sig_alg_ok sg = true) /\ (verify_canonical_guard = true -> sig_canonical sg = true).
+  Proof.
+    unfold verify_key, verify_sig_from_arg. destruct (vsrc_val st) as [[z|d]|]; try discriminate.
+    destruct (verify_alg_guard && negb (sig_alg_ok sg)) eqn:A; [discriminate|].
+    destruct (verify_canonical_guard && negb (sig_canonical sg)) eqn:C; [discriminate|].
+    intros _. split; intros G; rewrite G in *; cbn in *.
+    - now destruct (sig_alg_ok sg).
+    - now destruct (sig_canonical sg).
+  Qed.
+
   Lemma verify_key_fail st hk sg d :
-    s_H st = Some (PBytes d) -> verify hk d sg = false -> verify_key verify sig_alg_ok st hk sg = Raise SSHExc.
+    s_H st = Some (PBytes d) -> verify hk d sg = false -> verify_key verify sig_alg_ok sig_canonical st hk sg = Raise SSHExc.
   Proof.
     intros HH V. unfold verify_key, vsrc_val, verify_over, verify_key_from_arg, verify_sig_from_arg,
       verify_raises, verify_stores_key. rewrite HH, V.
-    destruct (verify_alg_guard && negb (sig_alg_ok sg)); reflexivity.
+    destruct ((verify_alg_guard && negb (sig_alg_ok sg)) || (verify_canonical_guard && negb (sig_canonical sg))); reflexivity.
   Qed.
 
   Lemma verify_key_ok st hk sg d :
-    s_H st = Some (PBytes d) -> verify hk d sg = true -> sig_alg_ok sg = true ->
-    verify_key verify sig_alg_ok st hk sg = Ok (mkS (s_K st) (s_H st) (s_sid st) (Some hk)).
+    s_H st = Some (PBytes d) -> verify hk d sg = true -> sig_alg_ok sg = true -> sig_canonical sg = true ->
+    verify_key verify sig_alg_ok sig_canonical st hk sg = Ok (mkS (s_K st) (s_H st) (s_sid st) (Some hk)).
   Proof.
-    intros HH V A. unfold verify_key, vsrc_val, verify_over, verify_key_from_arg, verify_sig_from_arg,
-      verify_raises, verify_stores_key. rewrite HH, V, A. cbn [negb]. rewrite andb_false_r. reflexivity.
+    intros HH V A C. unfold verify_key, vsrc_val, verify_over, verify_key_from_arg, verify_sig_from_arg,
+      verify_raises, verify_stores_key. rewrite HH, V, A, C. cbn [negb]. rewrite !andb_false_r. reflexivity.
   Qed.
 
-  Notation client_handle := (client_handle hash verify sig_alg_ok ec_dh).
+  Notation client_handle := (client_handle hash verify sig_alg_ok sig_canonical ec_dh).
   Notation server_handle := (server_handle hash sign pubblob ec_pub ec_dh).
   Notation client_transcript := (client_transcript ec_dh).
   Notation server_transcript := (server_transcript pubblob ec_pub ec_dh).
@@ -282,6 +299,7 @@ Section Sym.
      up holding the host key whose owner signed H *)
   Hypothesis verify_complete : forall o m, verify (pubblob o) m (sign o m) = true.
   Hypothesis alg_complete : forall o m, sig_alg_ok (sign o m) = true.
+  Hypothesis canonical_complete : forall o m, sig_canonical (sign o m) = true.
 
   Lemma honest_run f x y o tb st_c st_s st_s' r :
     0 < t_p tb -> 0 <= x -> 0 <= y ->
@@ -299,7 +317,7 @@ Section Sym.
     rewrite (honest_transcript f x y o tb Hp Hx Hy). fold t0. fold ts.
     rewrite same_H, E. cbn [bind r_ks r_sig].
     assert (KS : t_ks ts = pubblob o) by reflexivity.
-    rewrite (verify_key_ok _ _ _ (hash bs)); [|apply setkh_H|rewrite KS; apply verify_complete|apply alg_complete].
+    rewrite (verify_key_ok _ _ _ (hash bs)); [|apply setkh_H|rewrite KS; apply verify_complete|apply alg_complete|apply canonical_complete].
     eexists _, (t_k ts), (hash bs). split; [reflexivity|]. cbn [s_K s_H s_hostkey].
     rewrite !setkh_K, !setkh_H, KS. repeat split; try reflexivity. apply verify_complete.
   Qed.
@@ -363,6 +381,7 @@ Section Auth.
   Variable sign : Z -> list Z -> list Z.
   Variable verify : list Z -> list Z -> list Z -> bool.
   Variable sig_alg_ok : list Z -> bool.
+  Variable sig_canonical : list Z -> bool.
   Variable pubblob : Z -> list Z.
   Variable ec_pub : family -> Z -> list Z.
   Variable ec_dh : family -> Z -> list Z -> Z.
@@ -376,7 +395,7 @@ Section Auth.
     t_wf f Server (server_transcript pubblob ec_pub ec_dh f y o t0) = true ->
     t_wf f Client (client_transcript ec_dh f x t0 r') = true ->
     r_ks r' = pubblob o ->
-    client_handle hash verify sig_alg_ok ec_dh f x t0 st_c r' = Ok st' ->
+    client_handle hash verify sig_alg_ok sig_canonical ec_dh f x t0 st_c r' = Ok st' ->
     s_H st' = s_H st_s' /\ s_K st' = s_K st_s' /\ wire_pub f r' = wire_pub f r /\
     hash_fields f Server (client_transcript ec_dh f x t0 r') =
     hash_fields f Server (server_transcript pubblob ec_pub ec_dh f y o t0).
